@@ -19,7 +19,10 @@ def main():
     meta = json.load(open(os.path.join(d, 'meta.json')))
     prop = meta['property']
     t0 = time.time()
-    r = subprocess.run([os.path.join(ROOT, 'tools', 'mut.py'), prop, '--patch', os.path.join(d, 'patch.diff')], cwd=ROOT,
+    patch = os.path.join(d, 'patch_rebased.diff')   # same change re-done on top of a later fix of the same lines
+    if not os.path.exists(patch):
+      patch = os.path.join(d, 'patch.diff')
+    r = subprocess.run([os.path.join(ROOT, 'tools', 'mut.py'), prop, '--patch', patch], cwd=ROOT,
                        stdout=subprocess.PIPE, stderr=subprocess.STDOUT, text=True)
     last = r.stdout.strip().splitlines()[-1] if r.stdout.strip() else ''
     caught = 'VIOLATION property=%s' % prop in r.stdout
